@@ -45,7 +45,10 @@ class CGen:
         k = r.random()
         if d <= 0 or k < 0.3:
             self.hit("e:atom")
-            return r.choice([self.var(loc), self.var(loc), str(r.randrange(0, 50)), "0x%x" % r.randrange(0, 255), "1", "0", "'a'", "07",
+            hexn = "0x%x" % r.randrange(0, 255)
+            if not self.div_deref and hexn[-1] == "e":
+                hexn += "0"               # `0x1e + a` -> `0x1e+a` is a known finding as well
+            return r.choice([self.var(loc), self.var(loc), str(r.randrange(0, 50)), hexn, "1", "0", "'a'", "07",
                              "3u" if self.lang != "JAVA" else "3", "sizeof ( int )" if self.lang != "JAVA" else "4"])
         if k < 0.55:
             op = r.choice(BIN)
